@@ -111,7 +111,7 @@ def observe(case):
         from hta.common.trace import Trace
         canon: Dict[str, Any] = {}
         try:
-            t = Trace(trace_files=dict(files), trace_dir=os.path.dirname(files[0]))
+            t = Trace(trace_files=dict(files), trace_dir=os.path.dirname(next(iter(files.values()))))
             t.parse_traces(use_multiprocessing=p["mp"])
             canon["parsed"] = {r: _frame(t, r) for r in t.get_ranks()}
             ta = htaio.load(files, mp=p["mp"])
